@@ -424,6 +424,56 @@ Definition authority_verdict (u : run) : nat * string :=
   end.
 Definition authority_bad := Eval vm_compute in
   filter (fun x => Nat.eqb (fst (snd x)) 1) (map (fun p => (fst p, authority_verdict (snd p))) (combine (seq 0 (length observed)) observed)).
+(* C17 on a recorded inbox run: the forwarding part of the trace (from the Exists test on) judged by fwd_step *)
+Fixpoint from_exists (tr : list (ev * ans)) : list (ev * ans) :=
+  match tr with
+  | [] => []
+  | (EDb op args, x) :: r => if String.eqb op "Exists" then (EDb op args, x) :: r else from_exists r
+  | _ :: r => from_exists r
+  end.
+Fixpoint drop_until_filter (tr : list (ev * ans)) : list (ev * ans) :=
+  match tr with [] => [] | (EApp n _, _) :: r => if String.eqb n "FilterForwarding" then r else drop_until_filter r | _ :: r => drop_until_filter r end.
+Definition forward_verdict (u : run) : nat * string :=
+  if negb (String.eqb (u_entry u) "postinbox") then (0, "") else
+  match inbox_activity u with
+  | None => (0, "")
+  | Some a =>
+      let seg := take_until (fun e => match e with EWriteHeader _ => true | _ => false end) (from_exists (u_trace u)) in
+      let before := take_until (fun e => match e with EDb op _ => String.eqb op "Exists" | _ => false end) (u_trace u) in
+      let ok200 := existsb (fun p => match fst p with EWriteHeader n => Nat.eqb n 200 | _ => false end) (u_trace u) in
+      match first_fail fstate (fwd_step a) f0 seg 0 with
+      | inr pos => (1, match nth_error seg pos with
+                       | Some (EBatchDeliver _ _, _) => "forwarded without its conditions, twice, changed, or to other members than the filtered collections'"
+                       | Some (EDb _ _, _) => "the activity was recorded twice, changed, or although already seen"
+                       | Some (EApp _ _, _) => "the filter / value search was consulted out of turn or with other arguments"
+                       | _ => "?" end)
+      | inl s =>
+          if ok200 then
+            if match f_exists s with Some false => negb (Nat.eqb (f_created s) 1) | _ => false end then (1, "not recorded as seen") else
+            if f_owned_value s && match f_filter s with Some _ => negb (f_sent s) | None => true end then (1, "its three conditions held, but the activity was not forwarded") else
+            (* the statement asks for the inboxes of the members: no member was resolved (no Dereference, no InboxForActor) before the hand-over *)
+            if f_sent s && existsb (fun p => match fst p with EBatchDeliver _ (_ :: _) => true | _ => false end) seg
+               && negb (existsb (fun p => match fst p with EDeref _ => true | EDb op _ => String.eqb op "InboxForActor" | _ => false end)
+                                (match f_filter s with Some _ => drop_until_filter seg | None => [] end))
+            then (1, "member ids handed to the transport instead of the members' inboxes") else (0, "")
+          else (0, "")
+      end
+  end.
+Definition forward_bad := Eval vm_compute in
+  filter (fun x => Nat.eqb (fst (snd x)) 1) (map (fun p => (fst p, forward_verdict (snd p))) (combine (seq 0 (length observed)) observed)).
+(* repeated deliveries of one activity: forwarded at most once, recorded exactly once over the whole sequence *)
+Definition count_fwd (u : run) : nat := length (filter (fun p => match fst p with EBatchDeliver _ _ => true | _ => false end) (from_exists (u_trace u))).
+Definition count_rec (u : run) : nat := length (filter (fun p => match p with (EDb op _, AOk) => String.eqb op "Create" | _ => false end) (from_exists (u_trace u))).
+Definition sequence_bad := Eval vm_compute in
+  filter (fun x => Nat.eqb (fst (snd x)) 1)
+    (map (fun p => let us := flat_map (fun i => match nth_error observed i with Some u => [u] | None => [] end) (snd p) in
+                   (hd 0 (snd p), if Nat.ltb 1 (fold_left (fun n u => n + count_fwd u) us 0) then (1, "one activity was forwarded more than once over repeated deliveries")
+                             else if Nat.ltb 1 (fold_left (fun n u => n + count_rec u) us 0) then (1, "one activity was recorded as seen more than once over repeated deliveries")
+                             else (0, "")))
+         (combine (seq 0 (length sequences)) sequences)).
+Definition forward_stats := Eval vm_compute in
+  (length (filter (fun u => Nat.ltb 0 (count_fwd u)) observed), length sequences,
+   length (filter (fun u => existsb (fun p => match fst p with EApp n _ => String.eqb n "FilterForwarding" | _ => false end) (u_trace u)) observed)).
 Definition n_observed := Eval vm_compute in length observed.
 Print replay_bad.
 Print lock_bad.
@@ -440,6 +490,9 @@ Print order_stats.
 Print effects_bad.
 Print effects_stats.
 Print fed_bad.
+Print forward_bad.
+Print sequence_bad.
+Print forward_stats.
 Print authority_bad.
 Print diverge_bad.
 Print n_observed.
